@@ -180,15 +180,15 @@ class EventSeriesClimateNetwork(EventSeries, ClimateNetwork):
                     self.event_analysis_significance(
                         method=self.__method, **ES_significance_kwargs)
 
-                for i in range(self.__N):
-                    for j in range(self.__N):
+                for i in range(len(measure_matrix)):
+                    for j in range(len(measure_matrix)):
                         if significance_matrix[i][j] < 1.0 - p_value:
                             measure_matrix[i][j] = 0.0
 
         elif self.__method in ['ES_pval', 'ECA_pval']:
             measure_matrix = \
                 self.event_analysis_significance(
-                    method=self.__method, **ES_significance_kwargs)
+                    method=self.__method[:-5], **ES_significance_kwargs)
 
         ClimateNetwork.__init__(self, grid=data.grid,
                                 similarity_measure=measure_matrix,
